@@ -86,6 +86,26 @@ def property_checks(inp, rng_orders=None):
                 with scc.Controlled(fn):
                     got = scc.build(cfg, t).make_covariance_matrix()
                 A(("mp(%d threads, %s completion order) bit-identical to single process" % (t, name), 0.0 if bits_equal(got, ref) else 1.0, 0.0))
+        # the parameters held as float32 arrays or as plain Python lists: the worker processes must compute what the single
+        # process computes (the task tuples are pickled; nothing may be converted on the way)
+        for kind in ("float32", "list"):
+            ck = dict(cfg, param_kind=kind)
+            try:
+                refk = scc.build(ck, 1).make_covariance_matrix()
+            except Exception:
+                continue
+            with scc.Controlled(rand):
+                gotk = scc.build(ck, inp["threads"][0]).make_covariance_matrix()
+            A(("mp bit-identical to single process when the parameters are %s" % ("float32 arrays" if kind == "float32" else "Python lists"),
+               0.0 if bits_equal(gotk, refk) else 1.0, 0.0))
+        # an object re-used with other parameters, rebuilt with another thread count = a fresh object
+        import common
+        cfgB = scc.perturbed(cfg, common.Rng(inp["order_seed"]))
+        with scc.Controlled(rand):
+            e_, _ = scc.reuse_error(cfg, cfgB, threads=(inp["threads"][0], 1), how="inplace")
+            A(("an object re-used after its parameters were changed gives the matrix of a fresh object (threads %d then 1)" % inp["threads"][0], e_, 0.0))
+            e_, _ = scc.reuse_error(cfg, cfgB, threads=(1, inp["threads"][1]), how="replace")
+            A(("an object re-used after its parameters were changed gives the matrix of a fresh object (threads 1 then %d)" % inp["threads"][1], e_, 0.0))
         # history on ONE object
         with scc.Controlled(rand):
             obj = scc.build(cfg, 1)
